@@ -184,7 +184,7 @@ func c13Family(tier string, vals []int64, deep int64, maxN int, emit func(*Confi
 		for _, ante := range vals {
 			for _, sb := range vals {
 				for _, bb := range vals {
-					if sb > bb {
+					if sb > bb && n > 3 { // a small blind above the big blind (also: a small blind only) is legal; explored for 2-3 seats
 						continue
 					}
 					for _, db := range vals {
@@ -254,7 +254,7 @@ func c13Family(tier string, vals []int64, deep int64, maxN int, emit func(*Confi
 
 // RunC13 sweeps the full forced-bet configuration grid.
 func RunC13(rep *explore.Report, tier string) {
-	rep.Set("rule", "full grid of seat counts x button x (ante, sb, bb, dealer blind) in {0,1,2,3,5}^4 (2-3 seats also in {0,25,50,100,250}^4, {0,2^31-1,2^31+1,2^32+1,2^33+3}^4 and {0,2^52+1,2^53+1,2^53+3,2^54+5}^4) with sb<=bb x dead-small-blind flag x per-seat bankrolls on the thresholds below/at/above each forced amount; each configuration is driven Start, ReadyForAll, [PayAnte], [PayBlinds] and compared with refForced; distinct_nontrivial = configurations whose forced bets were compared")
+	rep.Set("rule", "full grid of seat counts x button x (ante, sb, bb, dealer blind) in {0,1,2,3,5}^4 (2-3 seats also in {0,25,50,100,250}^4, {0,2^31-1,2^31+1,2^32+1,2^33+3}^4 and {0,2^52+1,2^53+1,2^53+3,2^54+5}^4) with sb<=bb (2-3 seats: any sb, bb) x dead-small-blind flag x per-seat bankrolls on the thresholds below/at/above each forced amount; each configuration is driven Start, ReadyForAll, [PayAnte], [PayBlinds] and compared with refForced; distinct_nontrivial = configurations whose forced bets were compared")
 	// scenes first, alone in the process (see scene.go)
 	before := rep.ViolationCount()
 	{
